@@ -372,7 +372,11 @@ func (p *Program) IsNewFunc(f *ssa.Function) bool {
 // Load type-checks the module in dir and builds SSA. With deps=true the
 // dependencies are loaded from source too (thorough tier).
 func Load(dir string, deps bool, env []string) (*Program, error) {
-	cfg := &packages.Config{Dir: dir, Tests: false, Env: append(os.Environ(), env...)}
+	// -trimpath makes the build cache keys independent of the directory: the scratch copies of the self-test (one
+	// directory per variant) then reuse the export data of every package the variant does not touch, instead of
+	// adding ~6 MB to the cache each (70 GB over one full thorough cycle)
+	goflags := strings.TrimSpace(os.Getenv("GOFLAGS") + " -trimpath")
+	cfg := &packages.Config{Dir: dir, Tests: false, Env: append(append(os.Environ(), "GOFLAGS="+goflags), env...)}
 	if !deps {
 		// syntax for the module's packages only; dependencies through export data
 		cfg.Mode = packages.LoadSyntax | packages.NeedModule
